@@ -35,8 +35,8 @@ Lemma nclamp_of_nfit k R :
   | Err _ => nmin k = Some (nclamp k R)
   end.
 Proof.
-  intro Hk. destruct k; try discriminate; unfold nfit, nclamp; simpl nmin; simpl nmax;
-    brk; try (f_equal; lia); lia.
+  intro Hk. destruct k; try discriminate; unfold nfit, nclamp; cbn [nmin nmax];
+    rewrite ?p63, ?p64, ?p127, ?p128; brk; try (f_equal; lia); lia.
 Qed.
 
 Lemma saturation_flagged k R f : is_fixed k = true ->
@@ -64,7 +64,7 @@ Qed.
 Lemma round_div_zero m d : 0 < d -> round_div m 0 d = 0.
 Proof.
   intro Hd. unfold round_div. rewrite Z.quot_0_l, Z.rem_0_l by lia. simpl.
-  destruct m; rewrite ?Z.geb_leb; brk; try lia; reflexivity.
+  destruct m; repeat match goal with |- context [if ?c then _ else _] => destruct c end; reflexivity.
 Qed.
 
 Lemma quot_sgn_abs n d : d <> 0 -> Z.quot (n * Z.sgn d) (Z.abs d) = Z.quot n d.
@@ -170,18 +170,17 @@ Section LibProofs.
       handle_fixedpoint_error (lib_div lib_fmd k a b RTowardZero) = Err DivZero).
     { intros _ ->. unfold lib_div. destruct (scale_in_range k Hf) as [Hs _].
       rewrite Hfmd by assumption. reflexivity. }
-    destruct (Z.eqb_spec b 0) as [Hz|Hz].
-    - destruct op; try (destruct (lib_op_flagged k _ a b Hk Ha Hb ltac:(discriminate)) as [f [E|[Z0 E]]];
-        rewrite E; [apply handle_flagged | rewrite Z0, nfit_zero by assumption; reflexivity]).
-      apply D; [reflexivity|assumption].
-    - assert (G: handle_fixedpoint_error
+    assert (G: (op = FDiv -> b <> 0) -> handle_fixedpoint_error
          match op with
          | FAdd => lib_add k a b | FSub => lib_sub k a b
          | FMul => lib_mul lib_fmd k a b RTowardZero | FDiv => lib_div lib_fmd k a b RTowardZero
          end = nfit k (exact_fix k op a b)).
-      { destruct (lib_op_flagged k op a b Hk Ha Hb ltac:(intros _; assumption)) as [f [E|[Z0 E]]];
-          rewrite E; [apply handle_flagged | rewrite Z0, nfit_zero by assumption; reflexivity]. }
-      destruct op; exact G.
+    { intro Hd. destruct (lib_op_flagged k op a b Hk Ha Hb Hd) as [f [E|[Z0 E]]];
+        rewrite E; [apply handle_flagged | rewrite Z0, nfit_zero by assumption; reflexivity]. }
+    destruct op; try (apply G; discriminate).
+    destruct (Z.eqb_spec b 0) as [Hz|Hz].
+    - apply D; [reflexivity|assumption].
+    - apply G. intros _. assumption.
   Qed.
 
   Theorem fix128_sat_correct k op a b :
@@ -190,19 +189,18 @@ Section LibProofs.
   Proof.
     intros Hk Hd Ha Hb. pose proof (k128_fixed k Hk) as Hf. unfold fix128_sat, spec_sat.
     assert (Z0: nclamp k 0 = 0) by (destruct Hk as [->| ->]; reflexivity).
-    destruct (Z.eqb_spec b 0) as [Hz|Hz].
-    - destruct op; try (destruct (lib_op_flagged k _ a b Hk Ha Hb ltac:(discriminate)) as [f [E|[Z1 E]]];
-        rewrite E; [apply saturation_flagged; assumption | rewrite Z1, Z0; reflexivity]).
-      subst b. unfold lib_div. destruct (scale_in_range k Hf) as [Hs _].
-      rewrite Hfmd by assumption. reflexivity.
-    - assert (G: saturation_result k
+    assert (G: (op = FDiv -> b <> 0) -> saturation_result k
          match op with
          | FAdd => lib_add k a b | FSub => lib_sub k a b
          | FMul => lib_mul lib_fmd k a b RTowardZero | FDiv => lib_div lib_fmd k a b RTowardZero
          end = Ok (nclamp k (exact_fix k op a b))).
-      { destruct (lib_op_flagged k op a b Hk Ha Hb ltac:(intros _; assumption)) as [f [E|[Z1 E]]];
-          rewrite E; [apply saturation_flagged; assumption | rewrite Z1, Z0; reflexivity]. }
-      destruct op; exact G.
+    { intro Hdv. destruct (lib_op_flagged k op a b Hk Ha Hb Hdv) as [f [E|[Z1 E]]];
+        rewrite E; [apply saturation_flagged; assumption | rewrite Z1, Z0; reflexivity]. }
+    destruct op; try (apply G; discriminate).
+    destruct (Z.eqb_spec b 0) as [Hz|Hz].
+    - subst b. unfold lib_div. destruct (scale_in_range k Hf) as [Hs _].
+      rewrite Hfmd by assumption. reflexivity.
+    - apply G. intros _. assumption.
   Qed.
 
   Theorem fix128_mod_correct k a b :
